@@ -225,6 +225,10 @@ class Obj:
         self.methods = dict(methods or {})
         self.bases = tuple(bases)
         self.name = name or cls
+        Obj._uid += 1
+        self.uid = Obj._uid      # identity token: survives the deep copies taken for old(...) snapshots
+
+    _uid = 0
 
     def __repr__(self):
         return 'Obj<%s>' % self.name
@@ -882,6 +886,7 @@ class Executor:
             self.writes = []
             self.ghost = {}
             self.last_call = {}
+            self.last_call_kwargs = {}
             self.vy = False          # ghost: a result value (not an underrun marker) has been yielded
             self.path_count += 1
             if self.path_count > self.MAX_PATHS:
@@ -965,6 +970,7 @@ class Executor:
         c = self.c
         env = {}
         self.env = env
+        self.pc.append(inr(Empty(S)))        # the empty sequence is trivially in range
         for name, sort in c.params.items():
             env[name] = sort.make(self, name) if isinstance(sort, PSort) else sort
         for name, sort in c.ghost.items():
@@ -981,6 +987,10 @@ class Executor:
                 self.on_exit(None)
             except _Return as r:
                 self.on_exit(r.v)
+            except _Break:
+                if not self.c.region:
+                    raise Unsupported('break outside loop')
+                self.on_exit(None)       # a region may end by breaking out of the enclosing state loop
         except _Raise as r:
             self.on_raise(r.exc)
 
@@ -1049,10 +1059,17 @@ class Executor:
                 b = self.spec_bool(sp[1], env, use_old)
             except NoCallRecorded:
                 # the consequent mentions a call-site ghost of a call that did not happen on this path:
-                # fine iff the antecedent is impossible here
-                if isinstance(a, bool) or self.feasible(a):
-                    raise
-                return True
+                # fine iff the antecedent is impossible here; otherwise the clause demands a call that did not
+                # happen, i.e. it is false whenever the antecedent holds
+                if a is True:
+                    return False
+                return b_implies(a, False)
+            except Unsupported:
+                # the consequent is not even well-formed on this path (e.g. it selects a field of a value that has
+                # another shape here): vacuous iff the antecedent cannot hold on this path
+                if a is not True and not self.feasible(z3bool(a)):
+                    return True
+                raise
             return b_implies(a, b)
         node = ast.parse(text.strip(), mode='eval').body
         saved = self.env
@@ -1060,6 +1077,13 @@ class Executor:
         self._in_spec = getattr(self, '_in_spec', 0) + 1
         try:
             v = self.ev(node)
+        except NoCallRecorded:
+            # the clause speaks about a call site that was not reached on this path: it demands that call
+            return False
+        except _Raise:
+            # evaluating the clause itself fails on this path (e.g. it selects an argument the call did not get):
+            # the clause does not hold here
+            return False
         finally:
             self.env = saved
             self._in_spec -= 1
@@ -1247,6 +1271,8 @@ class Executor:
         if spec.unroll:
             return self.unroll_while(s, lid)
         pre = '%s#loop%d' % (self.c.id, lid)
+        entry = self.snapshot(self.env)          # loop_entry(x): value of x when this loop was entered
+        self._loop_entry = entry
         self.vc(pre + '.init', self.inv(spec, self.env))
         self.havoc(self.assigned_names(s), spec, lid)
         self.assume(self.inv(spec, self.env))
@@ -1261,6 +1287,7 @@ class Executor:
                 pass
             except _Break:
                 return
+            self._loop_entry = entry
             self.loop_hints(spec, pre)
             self.vc(pre + '.preserve', self.inv(spec, self.env))
             for dn, dv in spec.decl.items():
@@ -1509,6 +1536,8 @@ class Executor:
         if isinstance(base, Obj):
             if attr in base.fields:
                 return base.fields[attr]
+            if attr == '__class__':
+                return {'__name__': base.cls}
             g = base.methods.get('__get_' + attr)
             if g is not None:
                 return g(self, base)
@@ -1886,6 +1915,8 @@ class Executor:
         if isinstance(a, (Obj, ClassV, ExcV, DictV, Tup, FnV)) or isinstance(b, (Obj, ClassV, ExcV, DictV, Tup, FnV)):
             if isinstance(a, ClassV) and isinstance(b, ClassV):
                 return a.name == b.name
+            if isinstance(a, Obj) and isinstance(b, Obj):
+                return a.uid == b.uid      # old(x) is a snapshot of the same object
             return a is b
         if isinstance(a, bool) and isinstance(b, bool):
             return a is b
@@ -2092,6 +2123,8 @@ class Executor:
             return self.ev_in(self.old_env, n.args[0])
         if key == 'iter_old':
             return self.ev_in(self.iter_old_env, n.args[0])
+        if key == 'loop_entry':
+            return self.ev_in(self._loop_entry, n.args[0])
         if key == 'value_yielded':
             return self.vy
         if key == 'last_yield':
@@ -2099,11 +2132,13 @@ class Executor:
             return ys[-1] if ys else Obj('NoYield', {}, name='<no yield>')
         if key == 'nyields':
             return len([t for t in self.trace if t[0] == 'yield'])
-        if key in ('last_result', 'last_args'):
+        if key in ('last_result', 'last_args', 'last_kwargs'):
             k = n.args[0].value
             if k not in self.last_call:
                 raise NoCallRecorded('no call of %s recorded on this path' % k)
             a, r = self.last_call[k]
+            if key == 'last_kwargs':
+                return self.last_call_kwargs[k]
             return r if key == 'last_result' else Tup(a)
         model = self.lookup_call_model(key)
         if model is None:
@@ -2121,9 +2156,17 @@ class Executor:
             else:
                 args.append(self.ev(a))
         kwargs = self.eval_kwargs(n)
+        kwsnap = None
+        if model is not None:
+            # snapshot of the keyword arguments as the callee sees them (** expanded), for last_kwargs("...")
+            kwsnap = DictV(dict(kwargs['**'].entries) if '**' in kwargs else {})
+            for k_, v_ in kwargs.items():
+                if k_ != '**':
+                    kwsnap.entries[k_] = (True, v_)
         r = self.call(f, args, kwargs, key)
         if model is not None:
             self.last_call[key] = (args, r)
+            self.last_call_kwargs[key] = kwsnap
         return r
 
     def call(self, f, args, kwargs, key='?'):
@@ -2401,8 +2444,10 @@ def _dict_update(ex, d, other=None, **kw):
         for k, (p, v) in other.entries.items():
             if p is True:
                 d.entries[k] = (True, v)
-            else:
-                raise Unsupported('update from maybe-absent entries')
+            elif p is False:
+                pass
+            elif ex.choose(p, 'has:%s' % k):
+                d.entries[k] = (True, v)
     for k, v in kw.items():
         d.entries[k] = (True, v)
 
@@ -2430,7 +2475,25 @@ def _dict_pop(ex, d, key, *default):
     raise _Raise(ExcV('KeyError'))
 
 
-DICT_METHODS = {'get': _dict_get, 'update': _dict_update, 'pop': _dict_pop}
+def _dict_copy(ex, d):
+    return DictV(dict(d.entries), d.closed)
+
+
+def _dict_items(ex, d):
+    """items() of a dict with declared keys: forks on the presence of each maybe-present key"""
+    if not d.closed:
+        raise Unsupported('items() of an open dict')
+    out = []
+    for k, (p, v) in d.entries.items():
+        if isinstance(p, bool):
+            if p:
+                out.append(Tup([k, v]))
+        elif ex.choose(p, 'has:%s' % k):
+            out.append(Tup([k, v]))
+    return Tup(out, 'list')
+
+
+DICT_METHODS = {'get': _dict_get, 'update': _dict_update, 'pop': _dict_pop, 'copy': _dict_copy, 'items': _dict_items}
 
 
 def _int_bit_length(ex, v):
